@@ -30,8 +30,8 @@ class WakeC(tops.Component):
 
     def gen_args(self, tier, seed):
         if tier == "quick":
-            return [["-seed", str(seed), "-cases", "250", "-exhaustive", "800"]]
-        return [["-seed", str(seed), "-cases", "4000", "-exhaustive", "30000"]]
+            return [["-seed", str(seed), "-cases", "250", "-exhaustive", "0"], ["-seed", str(seed), "-cases", "0", "-exhaustive", "800"]]
+        return [["-seed", str(seed), "-cases", "4000", "-exhaustive", "0"], ["-seed", str(seed), "-cases", "0", "-exhaustive", "30000"]]
 
     def nontrivial(self, cr):
         tids = [o.split()[1] for o in cr.ops if o.startswith("step")]
